@@ -97,6 +97,14 @@ func cacheOps(a []string) (string, bool) {
 			r = append(r, rune(n))
 		}
 		return xhex([]byte(string(r))), true
+	case "resolve":
+		// resolve <base escaped path> <ref>: what the client's rendezvous code does with the broker URL
+		bu, err := url.Parse("https://broker.example" + string(payload(a[1])))
+		if err != nil || bu.EscapedPath() != string(payload(a[1])) {
+			return "!parse", true
+		}
+		r := bu.ResolveReference(&url.URL{Path: string(payload(a[2]))})
+		return xhex([]byte(r.EscapedPath())), true
 	case "jhp":
 		return xhex([]byte(net.JoinHostPort(string(payload(a[1])), string(payload(a[2]))))), true
 	case "cacheurl", "cacheurl0":
